@@ -26,17 +26,34 @@ def opLitOkB : OpLit → Bool
   | .str s => strBodyOk s && s.length == 4
 
 def cmsgFieldOkB (g : CMsgField) : Bool :=
-  g.doc.all bodyDocOkB && optAll strBodyOk g.dep && numLitOk g.idx &&
+  optAll docLineOk g.trail && g.doc.all bodyDocOkB && optAll strBodyOk g.dep && numLitOk g.idx &&
   (match parseUint g.idx false 8 with | some n => n != 0 | none => false) && ctypeOkB g.ty && IdentOk g.name
 
-def cenumOptOkB (bits : Nat) (unsigned : Bool) (o : CEnumOpt) : Bool :=
-  o.doc.all docLineOk && optAll strBodyOk o.dep && IdentOk o.name && numLitOk o.lit &&
-  (if unsigned then (parseUint o.lit true bits).isSome else (parseInt o.lit true bits).isSome)
+def etokOkB : ETok → Bool
+  | .lit s => numLitOk s
+  | .ref n => IdentOk n
+  | _ => true
+
+def cenumOptOkB (fl : Bool) (bits : Nat) (unsigned : Bool) (prev : List EnumOption) (o : CEnumOpt) : Bool :=
+  o.doc.all docLineOk && optAll strBodyOk o.dep && IdentOk o.name && o.val.all etokOkB &&
+  (enumVal fl bits unsigned prev (o.val.map ETok.tok)).isSome
+
+def cenumOptsOkB (fl : Bool) (bits : Nat) (unsigned : Bool) : List EnumOption → List CEnumOpt → Bool
+  | _, [] => true
+  | acc, o :: os =>
+    cenumOptOkB fl bits unsigned acc o && cenumOptsOkB fl bits unsigned (acc ++ [enumOptOf fl bits unsigned acc o]) os
 
 def cconstVOkB : CConstV → Bool
   | .int ty lit => IdentOk ty && numLitOk lit && (isUintName ty || isIntName ty || isFloatName ty)
   | .bool _ => true
   | .str body => strBodyOk body
+  | .float ty _ ip fp =>
+    IdentOk ty && !(isUintName ty || isIntName ty) && isFloatName ty && !ip.isEmpty && ip.all isNumeric &&
+    !fp.isEmpty && fp.all isNumeric
+  | .inf ty => IdentOk ty && !(isUintName ty || isIntName ty) && isFloatName ty
+  | .negInf ty => IdentOk ty && !(isUintName ty || isIntName ty) && isFloatName ty
+  | .nan ty => IdentOk ty && !(isUintName ty || isIntName ty) && isFloatName ty
+  | .guid body => strBodyOk body && (body.filter (· != 0x2d)).length == 32
 
 def cumemberOkB : CUMember → Bool
   | .struct doc dep idx name fields =>
@@ -52,9 +69,9 @@ def cdefOkB : CDef → Bool
     optAll opLitOkB op && IdentOk name && fields.all cmsgFieldOkB && decide (fields.map (fun g => idxVal g.idx)).Nodup
   | .union op name members =>
     optAll opLitOkB op && IdentOk name && members.all cumemberOkB && decide (members.map (fun m => idxVal m.idx)).Nodup
-  | .enum _ name base opts =>
+  | .enum fl name base opts =>
     IdentOk name && optAll (fun b => IdentOk b && (isUintName b || isIntName b) && (decodeInteger b).isSome) base &&
-    opts.all (cenumOptOkB (enumBits base).1 (enumBits base).2)
+    cenumOptsOkB fl (enumBits base).1 (enumBits base).2 [] opts
   | .const name v => IdentOk name && cconstVOkB v
   | .import_ path => strBodyOk path
 
@@ -64,8 +81,19 @@ def noDocAfterConstB : CFile → Bool
   | a :: b :: r => (!a.d.isConst || b.doc.isEmpty) && noDocAfterConstB (b :: r)
   | _ => true
 
-/-- The executable well-formedness check of a schema. -/
-def cfileOkB (f : CFile) : Bool := f.all ctopOkB && noDocAfterConstB f
+/-- The executable well-formedness check of a schema, for the parser theorems. -/
+def cfileOkPB (f : CFile) : Bool := f.all ctopOkB && noDocAfterConstB f
+
+def noMovedCommentsB : CDef → Bool
+  | .message _ _ fields => fields.all (fun g => g.trail.isNone)
+  | .union _ _ members => members.all (fun m =>
+      match m with
+      | .message _ _ _ _ fields => fields.all (fun g => g.trail.isNone)
+      | _ => true)
+  | _ => true
+
+/-- The executable well-formedness check of a schema, for the formatter (and parser) theorems. -/
+def cfileOkB (f : CFile) : Bool := cfileOkPB f && f.all (fun d => noMovedCommentsB d.d)
 
 namespace Canon
 
@@ -98,18 +126,28 @@ theorem opLitOkB_sound {o : OpLit} (h : opLitOkB o = true) : OpLitOk o := by
 
 theorem cmsgFieldOkB_sound {g : CMsgField} (h : cmsgFieldOkB g = true) : CMsgFieldOk g := by
   simp only [cmsgFieldOkB, Bool.and_eq_true] at h
-  obtain ⟨⟨⟨⟨⟨h1, h2⟩, h3⟩, h4⟩, h5⟩, h6⟩ := h
-  refine ⟨all_bodyDoc h1, optAll_sound h2, h3, ?_, ctypeOkB_sound _ h5, h6⟩
+  obtain ⟨⟨⟨⟨⟨⟨h0, h1⟩, h2⟩, h3⟩, h4⟩, h5⟩, h6⟩ := h
+  refine ⟨optAll_sound h0, all_bodyDoc h1, optAll_sound h2, h3, ?_, ctypeOkB_sound _ h5, h6⟩
   cases hp : parseUint g.idx false 8 with
   | none => rw [hp] at h4; cases h4
   | some n => rw [hp] at h4; exact ⟨n, rfl, by simpa using h4⟩
 
-theorem cenumOptOkB_sound {bits : Nat} {uns : Bool} {o : CEnumOpt} (h : cenumOptOkB bits uns o = true) :
-    CEnumOptOk bits uns o := by
+theorem etokOkB_sound {e : ETok} (h : etokOkB e = true) : ETokOk e := by
+  cases e <;> first | exact h | trivial
+
+theorem cenumOptOkB_sound {fl : Bool} {bits : Nat} {uns : Bool} {prev : List EnumOption} {o : CEnumOpt}
+    (h : cenumOptOkB fl bits uns prev o = true) : CEnumOptOk fl bits uns prev o := by
   simp only [cenumOptOkB, Bool.and_eq_true] at h
   obtain ⟨⟨⟨⟨h1, h2⟩, h3⟩, h4⟩, h5⟩ := h
-  refine ⟨fun c hc => List.all_eq_true.1 h1 c hc, optAll_sound h2, h3, h4, ?_⟩
-  cases uns <;> simpa using h5
+  exact ⟨fun c hc => List.all_eq_true.1 h1 c hc, optAll_sound h2, h3,
+    fun e he => etokOkB_sound (List.all_eq_true.1 h4 e he), h5⟩
+
+theorem cenumOptsOkB_sound {fl : Bool} {bits : Nat} {uns : Bool} : ∀ (os : List CEnumOpt) (acc : List EnumOption),
+    cenumOptsOkB fl bits uns acc os = true → CEnumOptsOk fl bits uns acc os
+  | [], _, _ => trivial
+  | o :: os, acc, h => by
+    simp only [cenumOptsOkB, Bool.and_eq_true] at h
+    exact ⟨cenumOptOkB_sound h.1, cenumOptsOkB_sound os _ h.2⟩
 
 theorem cconstVOkB_sound {v : CConstV} (h : cconstVOkB v = true) : CConstVOk v := by
   cases v with
@@ -118,6 +156,22 @@ theorem cconstVOkB_sound {v : CConstV} (h : cconstVOkB v = true) : CConstVOk v :
     exact ⟨h.1.1, h.1.2, h.2⟩
   | bool b => trivial
   | str body => exact h
+  | float ty neg ip fp =>
+    simp only [cconstVOkB, Bool.and_eq_true, Bool.not_eq_true', List.isEmpty_eq_false_iff] at h
+    obtain ⟨⟨⟨⟨⟨⟨h1, h2⟩, h3⟩, h4⟩, h5⟩, h6⟩, h7⟩ := h
+    exact ⟨h1, h2, h3, h4, h5, h6, h7⟩
+  | inf ty =>
+    simp only [cconstVOkB, Bool.and_eq_true, Bool.not_eq_true'] at h
+    exact ⟨h.1.1, h.1.2, h.2⟩
+  | negInf ty =>
+    simp only [cconstVOkB, Bool.and_eq_true, Bool.not_eq_true'] at h
+    exact ⟨h.1.1, h.1.2, h.2⟩
+  | nan ty =>
+    simp only [cconstVOkB, Bool.and_eq_true, Bool.not_eq_true'] at h
+    exact ⟨h.1.1, h.1.2, h.2⟩
+  | guid body =>
+    simp only [cconstVOkB, Bool.and_eq_true, beq_iff_eq] at h
+    exact h
 
 theorem cumemberOkB_sound {m : CUMember} (h : cumemberOkB m = true) : CUMemberOk m := by
   cases m with
@@ -146,7 +200,7 @@ theorem cdefOkB_sound {d : CDef} (h : cdefOkB d = true) : CDefOk d := by
       fun m hm => cumemberOkB_sound (List.all_eq_true.1 h.1.2 m hm), h.2⟩
   | enum fl name base opts =>
     simp only [cdefOkB, Bool.and_eq_true] at h
-    refine ⟨h.1.1, fun b hb => ?_, fun o ho => cenumOptOkB_sound (List.all_eq_true.1 h.2 o ho)⟩
+    refine ⟨h.1.1, fun b hb => ?_, cenumOptsOkB_sound opts [] h.2⟩
     have := optAll_sound h.1.2 b hb
     simp only [Bool.and_eq_true] at this
     exact ⟨this.1.1, this.1.2, this.2⟩
@@ -172,10 +226,34 @@ theorem noDocAfterConstB_sound : ∀ (f : CFile), noDocAfterConstB f = true → 
     · rw [hc] at h1; cases h1
     · exact h1
 
-/-- The executable check is sound. -/
+/-- The executable checks are sound. -/
+theorem cfileOkPB_sound {f : CFile} (h : cfileOkPB f = true) : CFileOkP f := by
+  simp only [cfileOkPB, Bool.and_eq_true] at h
+  exact ⟨fun d hd => ctopOkB_sound (List.all_eq_true.1 h.1 d hd), noDocAfterConstB_sound f h.2⟩
+
+theorem noMovedCommentsB_sound {d : CDef} (h : noMovedCommentsB d = true) : d.noMovedComments := by
+  cases d with
+  | message op name fields =>
+    intro g hg
+    have := List.all_eq_true.1 h g hg
+    simpa using this
+  | union op name members =>
+    intro m hm
+    have := List.all_eq_true.1 h m hm
+    cases m with
+    | struct doc dep idx n fs => trivial
+    | message doc dep idx n gs =>
+      intro g hg
+      have := List.all_eq_true.1 this g hg
+      simpa using this
+  | struct op ro name fields => trivial
+  | enum fl name base opts => trivial
+  | const name v => trivial
+  | import_ path => trivial
+
 theorem cfileOkB_sound {f : CFile} (h : cfileOkB f = true) : CFileOk f := by
   simp only [cfileOkB, Bool.and_eq_true] at h
-  exact ⟨fun d hd => ctopOkB_sound (List.all_eq_true.1 h.1 d hd), noDocAfterConstB_sound f h.2⟩
+  exact ⟨cfileOkPB_sound h.1, fun d hd => noMovedCommentsB_sound (List.all_eq_true.1 h.2 d hd)⟩
 
 end Canon
 end Bebop.Text
